@@ -67,7 +67,7 @@ def gen_sequence(rng: random.Random, tier):
         elif r < 0.42:
             steps.append(["resume", L, rng.choice(types)])
         elif r < 0.47:
-            steps.append(["sub", L, ALL])
+            steps.append([rng.choice(["sub", "sub", "resume"]), L, ALL])
         elif r < 0.51:
             steps.append([rng.choice(["unsub", "pause"]), L, ALL])
         elif r < 0.54 and len(live) > 2:
@@ -118,8 +118,8 @@ def gen_concurrent(rng: random.Random):
         elif r < 0.55:
             base.append(["sub", L, ALL])
     base.append(["drain"])
-    menu = lambda L: rng.choice([["sub", L, t], ["unsub", L, t], ["pause", L, t], ["sub", L, ALL], ["unsub", L, ALL],
-                                 ["pub", L, t, 0, 0, 8], ["pub", L, t, "@" + rng.choice(labels), 0, 4],
+    menu = lambda L: rng.choice([["sub", L, t], ["unsub", L, t], ["pause", L, t], ["sub", L, ALL], ["unsub", L, ALL], ["resume", L, ALL], ["pause", L, ALL],
+                                 ["resume", L, t], ["pub", L, t, 0, 0, 8], ["pub", L, t, "@" + rng.choice(labels), 0, 4],
                                  ["pub", L, t, 0, 0, 0], ["disc", L], ["close", L, "fin"]])
     ops = [menu(L) for L in labels[:k]]
     if not any(o[0] == "pub" for o in ops):
